@@ -51,6 +51,7 @@ type loopInfo struct {
 	ws       *WriteSet
 	hs       *State
 	variants []string
+	rangePhi *ssa.Phi
 	spec     *LoopSpec
 	pos      token.Pos
 }
@@ -167,7 +168,7 @@ func (c *FnCtx) needMk(srt Sort) {
 	c.ss.extraDecl = append(c.ss.extraDecl,
 		fmt.Sprintf("(declare-fun %s.mk (Int %s) %s)", S, E, S),
 		fmt.Sprintf("(assert (forall ((n Int) (e %s)) (! (=> (>= n 0) (= (%s.len (%s.mk n e)) n)) :pattern ((%s.mk n e)))))", E, S, S, S),
-		fmt.Sprintf("(assert (forall ((n Int) (e %s) (i Int)) (! (= (%s.at (%s.mk n e) i) e) :pattern ((%s.at (%s.mk n e) i)))))", E, S, S, S, S))
+		fmt.Sprintf("(assert (forall ((n Int) (e %s) (i Int)) (! (=> (and (<= 0 i) (< i n)) (= (%s.at (%s.mk n e) i) e)) :pattern ((%s.at (%s.mk n e) i)))))", E, S, S, S, S))
 }
 
 func constToTerm(c *FnCtx, exact, kind string, ty types.Type, v constant.Value) Term {
@@ -763,7 +764,7 @@ func (fr *Frame) enterLoop(li *loopInfo, h *ssa.BasicBlock, preds []*ssa.BasicBl
 			continue
 		}
 		// precise havoc: only the objects the loop can write through loop-invariant references
-		if !li.ws.AnyRef[k] && (k[0] == 'f' || k[0] == 'c' || k[0] == 'm' || k[0] == 'd') && k[1] == ':' {
+		if !li.ws.AnyRef[k] && (strings.HasPrefix(k, "f:") || strings.HasPrefix(k, "c:") || strings.HasPrefix(k, "m:") || strings.HasPrefix(k, "d:") || strings.HasPrefix(k, "gh:")) {
 			precise := true
 			var refs []string
 			for _, rv := range li.ws.Refs[k] {
@@ -785,7 +786,7 @@ func (fr *Frame) enterLoop(li *loopInfo, h *ssa.BasicBlock, preds []*ssa.BasicBl
 				es := elemSortOfKey(c.sortOfKey(k))
 				for _, r := range refs {
 					nv := c.freshConst("lhv", Sort(es))
-					if t, ok := keyTypes[k]; ok && (k[0] == 'f' || k[0] == 'c') {
+					if t, ok := keyTypes[k]; ok && (strings.HasPrefix(k, "f:") || strings.HasPrefix(k, "c:") || strings.HasPrefix(k, "gh:")) {
 						c.assumeRange(nv, t)
 					}
 					c.heapSet(hs, k, app("store", c.heapGet(hs, k), r, nv))
@@ -808,7 +809,12 @@ func (fr *Frame) enterLoop(li *loopInfo, h *ssa.BasicBlock, preds []*ssa.BasicBl
 		if !ok {
 			break
 		}
-		fr.setFresh(phi)
+		n := fr.setFresh(phi)
+		if phi.Comment == "rangeindex" {
+			// go/ssa lowers `range slice` to k = -1; loop: k++; if k < len: structural facts
+			c.emit(fmt.Sprintf("(assert (>= %s (- 1)))", n))
+			li.rangePhi = phi
+		}
 	}
 	li.hs = hs
 	// 3. assume invariants
@@ -884,6 +890,10 @@ func (fr *Frame) backEdge(li *loopInfo, from *ssa.BasicBlock, edge string, st *S
 		}
 	}
 	if !fr.c.wantTermination() {
+		return
+	}
+	if (li.spec == nil || len(li.spec.Decreases) == 0) && li.rangePhi != nil {
+		// range over a slice/array: the hidden index increases by one up to a fixed length
 		return
 	}
 	if li.spec == nil || len(li.spec.Decreases) == 0 {
